@@ -17,8 +17,11 @@ from ..core import Prop, Workload, Inconclusive
 
 def c11_keys(rng, n):
     out = []
+    beyond_ascii = rng.random() < 0.3  # some universes hold text keys beyond ASCII (an on-disk filter hashes them like an in-memory one)
     while len(out) < n:
         k = "".join(rng.choice("abcdefgh") for _ in range(rng.randint(1, 6))) if rng.random() < 0.7 else bytes(rng.getrandbits(8) for _ in range(rng.randint(1, 5)))
+        if beyond_ascii and rng.random() < 0.4:
+            k = rng.choice(["na\u00efve caf\u00e9", "\u6771\u4eac", "cafe\u0301", "\u00e9", "\U0001f600x", "\u00df\u1e9e", "a\u0308"]) + rng.choice(["", "1", "zz"])
         if k not in out:
             out.append(k)
     return out
@@ -38,7 +41,7 @@ class FileOracle:
     def __init__(self, est, rate, m, k, hf=None):
         self.est, self.rate32, self.m, self.k = est, refimpl.f32(rate), m, k
         # the strategy the filter was GIVEN (None: the documented default, recomputed independently)
-        self.hashes = (lambda key, depth: refimpl.fnv_chain(gen.to_bytes(key), depth)) if hf is None else hf
+        self.hashes = refimpl.fnv_chain_key if hf is None else hf
         self.model = refimpl.BloomModel(m, k)
         self.completed = 0
         self.blen = (m + 7) // 8
@@ -177,11 +180,13 @@ def wl_snapshots(ctx, rng, case):
             r = rng.random()
             if r < 0.6:
                 key = rng.choice(keys)
+                if buf is not None:
+                    key = gen.to_bytes(key)  # (what goes through the byte buffer IS a bytes key - for text beyond ASCII another key than the text)
                 case.op("add", key)
                 snap.inflight, snap.label = key, f"add #{len(added) + 1} ({key!r})"
                 arg = key
                 if buf is not None:
-                    buf[:] = gen.to_bytes(key)
+                    buf[:] = key
                     arg = buf if rng.random() < 0.7 else memoryview(buf)
                 with linehook.on_every_line(snap):
                     f.add(arg) if rng.random() < 0.8 else f.add_alt(f.hashes(arg))
